@@ -35,6 +35,7 @@ class Cfg:
         self.p_halt = 0.08
         self.dead_code = 0.15       # probability that a block keeps statements after one that ends the control flow
         self.reader_shaped = False  # only op shapes a binary SSB reader delivers (int flags for BranchEdit/Variation…)
+        self.with_halt = 0.0        # share of with-blocks whose statement is return / end / hold (behind a context op nothing stops the routine)
         self.goto_style = 0.0       # share of routines written with labels, `if (c) { jump @l; }` and jumps only: the compiler folds
                                     # lone jumps into the branch ops, which gives layouts of flow graphs that structured source never yields
         for k, v in kw.items():
@@ -159,6 +160,9 @@ class ProgGen:
         if c < 0.9:
             self.hit("with")
             inner = self.assign() if self.r.random() < 0.3 else {"t": "op", "name": self.r.choice(PLAIN_OPS), "args": self.args()}
+            if self.cfg.with_halt and self.r.random() < self.cfg.with_halt:
+                self.hit("with_halt")
+                inner = {"t": "ctrl", "k": self.r.choice(["return", "end", "hold"])}
             return {"t": "with", "kind": self.r.choice(["actor", "object", "performer"]), "target": self.il("ic"), "stmt": inner}
         self.hit("msgswitch")
         cases = [{"default": False, "v": self.il("ic"), "string": self.msg_string()} for _ in range(self.r.randint(0, 3))]
